@@ -11,10 +11,11 @@ LEVEL = "model_checking"
 
 CONF_Q = [("isi", {}), ("isi", {"MRTS": 2 * U}), ("spike", {}), ("spike", {"MRTS": 1.5 * U, "RI": True}),
           ("sync", {}), ("sync", {"max_tau": U, "MRTS": 6 * U}), ("order", {}),
-          ("order", {"max_tau": U})]
+          ("order", {"max_tau": U}), ("isi", {"MRTS": "auto"}), ("spike", {"MRTS": "auto"}),
+          ("sync", {"MRTS": "auto"})]
 CONF_T = CONF_Q + [("isi", {"MRTS": 40 * U}), ("spike", {"RI": True}), ("spike", {"MRTS": 3 * U}),
                    ("sync", {"max_tau": 0.5 * U}), ("sync", {"MRTS": 12 * U}),
-                   ("order", {"MRTS": 8 * U}), ("isi", {"MRTS": "auto"}), ("sync", {"MRTS": "auto"})]
+                   ("order", {"MRTS": 8 * U}), ("order", {"MRTS": "auto"})]
 
 # (kind, parameter, exact?)  exact: results must be bit-identical
 TRANSFORMS = [("shift", 3 * U, True), ("shift", -(2.5 * U + T0), True), ("shift", 1024.0, True),
@@ -24,7 +25,7 @@ TRANSFORMS = [("shift", 3 * U, True), ("shift", -(2.5 * U + T0), True), ("shift"
 
 def plan(tier):
     if tier == "quick":
-        specs = [(2, [("dense", 1, 5)], CONF_Q), (3, [("dense", 1, 3)], CONF_Q[::2])]
+        specs = [(2, [("dense", 1, 5)], CONF_Q), (3, [("dense", 1, 3)], CONF_Q[::2] + CONF_Q[8:9])]
     else:
         specs = [(2, [("dense", 1, 7), ("bounded", 3, 8, 10)], CONF_T), (3, [("dense", 1, 4)], CONF_Q)]
     tasks, descs = [], []
